@@ -109,7 +109,7 @@ func GetImportPath(cu *CodeUtils, ast *parser.Thrift) string {
 
 func GetImportPackage(path string) string {
 	parts := strings.Split(path, "/")
-	return strings.ToLower(parts[len(parts)-1])
+	return validPackageName(strings.ToLower(parts[len(parts)-1]))
 }
 
 // Scope contains the type symbols defined in a thrift IDL and wraps them to provide
